@@ -57,6 +57,6 @@ TRUSTED = ["snprintf/sprintf replaced by a format-aware worst-case contract (con
            "Memory replaced by a 16-byte symbolic window starting at the instruction's address; an access outside it fails the locality obligation"]
 MANIFEST = {
     "text": "Per-CPU contract on the real disassembler over all byte contents, addresses and flags: total, length in [unit, longest], reads only its own bytes (pdp11, which reads ahead: 2-safety form - two memories equal on the reported bytes give the same length and text), NUL-terminated text inside the caller's buffer; table scans closed by complete unwinding.",
-    "note": "Claimed for the CPUs listed in evidence (functions_under_contract); the others are not decided. strcat/strcpy use CBMC's models.",
-    "technique": "CBMC contract harness generated per CPU (window-memory and snprintf contracts) on disasm/*.cpp + table/*.cpp",
+    "note": "Claimed for the CPUs listed in evidence (functions_under_contract); the others are not decided. The range contracts use the disassembler's length contract (assumed, not discharged, for 6809 and z80). strcat/strcpy use CBMC's models.",
+    "technique": "CBMC contract harness generated per CPU (window-memory and snprintf contracts) on disasm/*.cpp + table/*.cpp; DFCC loop contracts (in-order read ghost, ghost string lengths) on the range disassemblers disasm_range_tms9900, _msp430_both, _6800, _68hc08, _6809, _z80",
 }
